@@ -1,24 +1,44 @@
 import DmrVerif.Model.HstrpHandler
 
 /-!
-Line protocol for the HSTRP/RRS handler model (C17).
+Line protocol for the HSTRP/RRS handler model (C17).  Any number of named handler objects live at once.
 
-`reset <connected 0|1> <sn>` · `push` · `pop` · `rx <A|B> <rrs|base> <msg>` where `<msg>` is `none`
-or five tokens `<version> <6 type bits: opt reject close connect heartbeat ack> <sn> <options hex> <payload>`
-and `<payload>` is `N` (None), `O` (HDAP, not RRS) or `R<opcode>:<radio ip hex>`.
-Answer of `rx`: the sendto calls (hex), the return value, the state of that handler afterwards and,
-for every datagram sent, what a peer's `HSTRP.from_bytes` makes of it.
+* `reset` — forget every handler
+* `new <name> <rrs|base> <be_active_peer 0|1> <port>` — `__init__`; answers the state of the new object
+* `made <name> <transport id> <old transport is_closing 0|1>` — `connection_made`; `closed=<id|->` + state
+* `lost <name>` — `connection_lost`
+* `set <name> <connected|sn|active|port|registry> <value>` — attribute assignment between datagrams
+  (`registry`: replaced by an empty dict)
+* `tick <name>` — one iteration of `periodic_maintenance`
+* `state <name>` · `push` · `pop` (snapshot / restore of all handlers)
+* `rx <name> <msg>` where `<msg>` is `none` or five tokens
+  `<version> <6 type bits: opt reject close connect heartbeat ack> <sn> <options hex> <payload>`
+  and `<payload>` is `N` (None), `O` (HDAP, not RRS) or `R<opcode>:<radio ip hex>`.
+
+Answer of `rx`: the sendto calls (hex), the transport they went through, the return value, the state of
+that handler afterwards (`c= sn= reg= ap= port= tr=`) and, for every datagram sent, what a peer's
+`HSTRP.from_bytes` makes of it; or `ERR <exception> <state afterwards>`.
 -/
 
 namespace Dmr.Driver.HstrpHandler
 open Dmr Dmr.HstrpHandler
 
-structure DState where
-  a : St
-  b : St
-  stack : List (St × St)
+/-- a handler object: its class (`true` = RRS) and state -/
+abbrev Obj := String × Bool × St
 
-def dinit : DState := { a := init, b := init, stack := [] }
+structure DState where
+  objs : List Obj
+  stack : List (List Obj)
+
+def dinit : DState := { objs := [], stack := [] }
+
+def find (d : DState) (name : String) : Option (Bool × St) :=
+  (d.objs.find? (fun o => o.1 == name)).map (·.2)
+
+def put (d : DState) (name : String) (k : Bool) (s : St) : DState :=
+  if d.objs.any (fun o => o.1 == name) then
+    { d with objs := d.objs.map (fun o => if o.1 == name then (name, k, s) else o) }
+  else { d with objs := d.objs ++ [(name, k, s)] }
 
 def b01 (b : Bool) : String := if b then "1" else "0"
 
@@ -70,41 +90,90 @@ def msgToString : Option Msg → String
 
 def listToString (l : List String) : String := if l.isEmpty then "-" else ",".intercalate l
 
+def optNat : Option Nat → String
+  | some n => toString n
+  | none => "-"
+
 def stToString (s : St) : String :=
   "c=" ++ b01 s.connected ++ " sn=" ++ toString s.sn ++ " reg="
     ++ listToString (s.registry.map (fun kv => bytesToHex' kv.1 ++ ":" ++ b01 kv.2))
+    ++ " ap=" ++ b01 s.activePeer ++ " port=" ++ toString s.port ++ " tr=" ++ optNat s.transport
 
-def answer (r : St × List Out × Ret) : String :=
+def answer (s0 : St) (r : St × List Out × Ret) : String :=
   "outs=" ++ listToString (r.2.1.map (fun o => bytesToHex o.bytes))
+    ++ " via=" ++ (if r.2.1.isEmpty then "-" else optNat s0.transport)
     ++ " ret=" ++ b01 r.2.2.1 ++ b01 r.2.2.2 ++ " " ++ stToString r.1
     ++ " peer=" ++ listToString (r.2.1.map (fun o => msgToString o.asMsg))
 
+def exnToString (s : St) : Exn → String
+  | .overflow => "ERR OverflowError " ++ stToString s
+  | .noTransport after => "ERR AttributeError " ++ stToString after
+
+def exnState (s : St) : Exn → St
+  | .overflow => s
+  | .noTransport after => after
+
 def handlerStep (d : DState) (op : String) (args : List String) : DState × String :=
   match op, args with
-  | "reset", [c, sn] =>
-    match parseBool c, sn.toNat? with
-    | some c, some sn =>
-      let s : St := { connected := c, sn := sn, registry := [] }
-      ({ a := s, b := s, stack := [] }, "ok")
+  | "reset", [] => (dinit, "ok")
+  | "new", [name, cls, a, port] =>
+    match parseBool a, port.toNat? with
+    | some a, some port =>
+      if cls != "rrs" && cls != "base" then (d, "ERR bad-class") else
+      let s := init { port := port, activePeer := a }
+      (put d name (cls == "rrs") s, stToString s)
     | _, _ => (d, "ERR bad-args")
-  | "push", [] => ({ d with stack := (d.a, d.b) :: d.stack }, "ok")
+  | "push", [] => ({ d with stack := d.objs :: d.stack }, "ok")
   | "pop", [] =>
     match d.stack with
-    | (a, b) :: t => ({ a := a, b := b, stack := t }, "ok")
+    | o :: t => ({ objs := o, stack := t }, "ok")
     | [] => (d, "ERR empty-stack")
-  | "rx", who :: cls :: rest =>
-    match parseMsg rest with
-    | none => (d, "ERR bad-msg")
-    | some m =>
-      let s := if who == "A" then d.a else d.b
-      if cls == "rrs" then
-        match stepE s m with
-        | .error _ => (d, "ERR OverflowError")
-        | .ok r => ((if who == "A" then { d with a := r.1 } else { d with b := r.1 }), answer r)
-      else
-        let r := stepBase s m
-        if r.2.1.any Out.raises then (d, "ERR OverflowError") else
-        ((if who == "A" then { d with a := r.1 } else { d with b := r.1 }), answer r)
+  | "state", [name] =>
+    match find d name with
+    | some (_, s) => (d, stToString s)
+    | none => (d, "ERR no-such-handler")
+  | "made", [name, t, c] =>
+    match find d name, t.toNat?, parseBool c with
+    | some (k, s), some t, some c =>
+      let r := connectionMade s t c
+      (put d name k r.1, "closed=" ++ optNat r.2 ++ " " ++ stToString r.1)
+    | _, _, _ => (d, "ERR bad-args")
+  | "lost", [name] =>
+    match find d name with
+    | some (k, s) => let s' := connectionLost s; (put d name k s', stToString s')
+    | none => (d, "ERR no-such-handler")
+  | "set", [name, attr, v] =>
+    match find d name, v.toNat? with
+    | some (k, s), some v =>
+      let s' : Option St :=
+        if attr == "connected" then some { s with connected := v != 0 }
+        else if attr == "sn" then some { s with sn := v }
+        else if attr == "active" then some (applyEv k s (.setActive (v != 0))).1
+        else if attr == "port" then some (applyEv k s (.setPort v)).1
+        else if attr == "registry" then some { s with registry := [] }
+        else none
+      match s' with
+      | some s' => (put d name k s', stToString s')
+      | none => (d, "ERR bad-attr")
+    | _, _ => (d, "ERR bad-args")
+  | "tick", [name] =>
+    match find d name with
+    | some (k, s) =>
+      if tickRaises s then (d, "ERR AttributeError " ++ stToString s) else
+      let r := applyEv k s .tick
+      (put d name k r.1,
+        "outs=" ++ listToString (r.2.map (fun o => bytesToHex o.bytes))
+          ++ " to=" ++ (if r.2.isEmpty then "-" else tickHost ++ ":" ++ toString s.port)
+          ++ " via=" ++ (if r.2.isEmpty then "-" else optNat s.transport) ++ " " ++ stToString r.1)
+    | none => (d, "ERR no-such-handler")
+  | "rx", name :: rest =>
+    match find d name, parseMsg rest with
+    | some (k, s), some m =>
+      match stepKE k s m with
+      | .error e => (put d name k (exnState s e), exnToString s e)
+      | .ok r => (put d name k r.1, answer s r)
+    | none, _ => (d, "ERR no-such-handler")
+    | _, none => (d, "ERR bad-msg")
   | _, _ => (d, "ERR bad-op " ++ op)
 
 end Dmr.Driver.HstrpHandler
